@@ -1251,7 +1251,10 @@ def run_malformed(chk, run, jobs, sizes):
             probes.append(('bit-flip', base[:pos] + bytes([base[pos] ^ (1 << rng.randrange(8))]) + base[pos + 1:]))
         else:
             probes.append(('random-octets', bytes(rng.randrange(256) for _ in range(rng.randrange(1, 40)))))
-    h_probe = [jobs.add('(probe_msg %s)' % coq_bytes(buf)) for (_t, buf) in probes]
+    # evaluated lazily: a corrupted length field can declare 2^37 or 2^63 octets, and the
+    # model's [take_n (N.to_nat len)] would make vm_compute build that unary number
+    # (call-by-value); under [lazy] only length(buffer)+1 constructors of it are ever forced
+    h_probe = [jobs.add('ltac:(let v := eval lazy in (probe_msg %s) in exact v)' % coq_bytes(buf)) for (_t, buf) in probes]
     streams = []
     hdr = spec_encode(GOOD_CONTACT)
     streams.append(('stall-unknown-type', hdr + b'\x04' + b'\x09\x05\x00\x03'))
